@@ -110,7 +110,12 @@ class Ed25519Key(PKey):
         else:
             raise SSHException("Invalid key")
 
-        if ciphername != "none" and ciphername not in Transport._cipher_info:
+        # Unknown ciphers, and the AEAD ones (which have no "mode"), cannot be
+        # used to decrypt a key file.
+        if ciphername != "none" and (
+            ciphername not in Transport._cipher_info
+            or "mode" not in Transport._cipher_info[ciphername]
+        ):
             raise SSHException("Invalid key")
 
         public_keys = []
